@@ -25,7 +25,7 @@ type tierSize struct{ hist, steps int }
 var histSizes = map[string]map[string]tierSize{
 	"C01": {"quick": {400, 40}, "thorough": {12000, 60}},
 	"C02": {"quick": {500, 30}, "thorough": {12000, 50}},
-	"C03": {"quick": {300, 40}, "thorough": {1500, 50}},
+	"C03": {"quick": {300, 40}, "thorough": {800, 50}},
 	"C04": {"quick": {300, 40}, "thorough": {8000, 60}},
 	"C09": {"quick": {300, 40}, "thorough": {8000, 60}},
 	"C10": {"quick": {300, 40}, "thorough": {8000, 60}},
